@@ -18,7 +18,7 @@ PROP = 'C08'
 
 TIERS = {
     # runs, shuffles per input, valuations per input, wall cap of the batch (s)
-    'quick': dict(runs=9000, shuffles=2, valuations=20, wall=75, hashseed_slices=0),
+    'quick': dict(runs=50000, shuffles=2, valuations=20, wall=75, hashseed_slices=0),
     'thorough': dict(runs=400000, shuffles=6, valuations=44, wall=1500, hashseed_slices=3),
 }
 
